@@ -13,6 +13,8 @@ use std::collections::HashMap;
 use std::fmt::Write as _;
 use std::io::{Cursor, Write};
 use std::path::{Path, PathBuf};
+use std::sync::atomic::{AtomicUsize, Ordering};
+use std::sync::Arc;
 
 pub struct WOpts {
     pub o: BBIWriteOptions,
@@ -486,6 +488,53 @@ pub fn read_wig(c: &Case, bytes: Vec<u8>, out: &mut String) {
                 answer!(&mut rd, qi, q);
             }
         }
+        "flaky" => {
+            // a reader whose k-th read after opening fails ONCE (a transient failure of a remote or file-like source): for the
+            // first interval query, at every k, the answer must be an error or exactly the answer of an undisturbed reader
+            let kmax: usize = c.opt_map().get("flaky").and_then(|v| v.parse().ok()).unwrap_or(40);
+            if let Some(q) = qs.iter().find(|q| q[1] == "iv") {
+                let (s, e): (u32, u32) = (q[3].parse().unwrap(), q[4].parse().unwrap());
+                for k in 0..=kmax {
+                    let ctl = Arc::new((AtomicUsize::new(0), AtomicUsize::new(usize::MAX)));
+                    let fr = FlakyReader { inner: Cursor::new(bytes.clone()), ctl: ctl.clone() };
+                    let mut rd = match BigWigRead::open(fr) {
+                        Ok(r) => r,
+                        Err(_) => {
+                            writeln!(out, "F {} err Open", k).unwrap();
+                            continue;
+                        }
+                    };
+                    ctl.0.store(0, Ordering::SeqCst);
+                    ctl.1.store(if k == 0 { usize::MAX } else { k }, Ordering::SeqCst);
+                    let cached = k % 2 == 1;
+                    let line = if cached {
+                        let mut rd = rd.cached();
+                        flaky_answer(&mut rd, &q[2], s, e)
+                    } else {
+                        flaky_answer(&mut rd, &q[2], s, e)
+                    };
+                    writeln!(out, "F {} {}", k, line).unwrap();
+                }
+            }
+        }
+        "bufreader" | "bufreadercached" => {
+            // the file on disk behind a `BufReader` (a reader whose `read` may legally return fewer bytes than asked: what is
+            // left in its buffer)
+            let tf = tempfile::NamedTempFile::new().unwrap();
+            std::fs::write(tf.path(), &bytes).unwrap();
+            let rb = BigWigRead::open(std::io::BufReader::new(std::fs::File::open(tf.path()).unwrap())).unwrap();
+            if mode == "bufreader" {
+                let mut rb = rb;
+                for (qi, q) in qs.iter().enumerate() {
+                    answer!(&mut rb, qi, q);
+                }
+            } else {
+                let mut rb = rb.cached();
+                for (qi, q) in qs.iter().enumerate() {
+                    answer!(&mut rb, qi, q);
+                }
+            }
+        }
         "reopened" | "reopenedmt" => {
             // the file on disk, read through `open_file` (a `ReopenableFile`): the original reader, readers reopened from it
             // AFTER it has answered queries, and readers opened anew on a reopened handle must all answer alike; in
@@ -584,6 +633,44 @@ pub fn read_wig(c: &Case, bytes: Vec<u8>, out: &mut String) {
             for (qi, q) in qs.iter().enumerate() {
                 answer!(&mut r, qi, q);
             }
+        }
+    }
+}
+
+/// `Read + Seek` over an in-memory file; the `fail_at`-th `read` call (counted from when the counter was reset) fails once.
+pub struct FlakyReader {
+    inner: Cursor<Vec<u8>>,
+    ctl: Arc<(AtomicUsize, AtomicUsize)>,
+}
+
+impl std::io::Read for FlakyReader {
+    fn read(&mut self, buf: &mut [u8]) -> std::io::Result<usize> {
+        let n = self.ctl.0.fetch_add(1, Ordering::SeqCst) + 1;
+        if n == self.ctl.1.load(Ordering::SeqCst) {
+            return Err(std::io::Error::new(std::io::ErrorKind::Other, "injected transient read failure"));
+        }
+        self.inner.read(buf)
+    }
+}
+
+impl std::io::Seek for FlakyReader {
+    fn seek(&mut self, p: std::io::SeekFrom) -> std::io::Result<u64> {
+        self.inner.seek(p)
+    }
+}
+
+fn flaky_answer<R: bigtools::BBIFileRead>(rd: &mut BigWigRead<R>, chrom: &str, s: u32, e: u32) -> String {
+    match rd.get_interval(chrom, s, e) {
+        Err(_) => "err".to_string(),
+        Ok(it) => {
+            let mut line = "ok".to_string();
+            for v in it {
+                match v {
+                    Ok(v) => write!(line, " {}:{}:{}", v.start, v.end, f32bits(v.value)).unwrap(),
+                    Err(_) => return "err".to_string(),
+                }
+            }
+            line
         }
     }
 }
